@@ -87,6 +87,11 @@ def gen(tier, rng, boost=1):
         sub = mod.gen("quick", _r.Random(rng.randrange(10 ** 9)), 1)
         rng.shuffle(sub)
         ops += sub[: take if q else take * 6]
+        if mod is C16:
+            # every 8-bit text that ends right after a sign, a dot or an exponent mark: the parsers look AHEAD at these places, and the
+            # harness also hands the text over in a heap block of exactly its size (a look past the end is an ASan report)
+            ops += [o for o in sub[take if q else take * 6:] if o.startswith(("num.parse", "num.bool")) and " 8 " in o
+                    and o.rsplit(".", 1)[-1].rsplit(" ", 1)[-1] in ("2e", "2d", "2b", "65", "45")]
     # ISO-8601 texts fed to Convert::To<time_point|duration|time_t|tm> (C15's grammar-based and mutated strings; the harness hands them
     # over as views that are not NUL-terminated): all the very short ones, and a sample of the rest
     from . import C15
